@@ -27,12 +27,12 @@ type c14Case struct {
 	// second completion round in the same call: text typed after the first round, then keys
 	// an incremental history search started and left earlier in the same call (the buffer is
 	// emptied again before the text is typed)
-	Searched string   `json:"searched,omitempty"` // "" | abort | accept
+	Searched string `json:"searched,omitempty"` // "" | abort | accept
 	// a list is displayed without a selected candidate and text is typed under it before the menu keys
-	ListFirst bool `json:"list_first,omitempty"`
-	Auto      bool `json:"auto,omitempty"` // set autocomplete on
-	Text2    string   `json:"text2,omitempty"`
-	Keys2    []string `json:"keys2,omitempty"`
+	ListFirst bool     `json:"list_first,omitempty"`
+	Auto      bool     `json:"auto,omitempty"` // set autocomplete on
+	Text2     string   `json:"text2,omitempty"`
+	Keys2     []string `json:"keys2,omitempty"`
 }
 
 var c14Lines = []string{"", "git ", "git c", "git co", "echo foo ba", "ls -la /tm", "x", "cmd --fl", "a b c d", "wörld 世", "say \"quoted wo", "path/to/fi", "echo   spaced  w", "tail\\ with\\ esc", "UPPER lo"}
